@@ -161,6 +161,19 @@ package datastore
 //@            len(result) >= 1 && result[0] == cachepb.Store_CONFIG &&
 //@            ite(dyn(req, *sdcpb.GetDataRequest).GetDatastore().GetName() == "", len(result) == 2 && result[1] == cachepb.Store_STATE, len(result) == 1)
 
+// The three readers are not under contract (channel loops); what Get hands them is checked at each call site as their
+// precondition: the element sequences of exactly the requested paths, in order.
+//@ pred requestedPaths(req, paths) = len(paths) == len(req.GetPath()) && forall(j, 0, len(paths), paths[j] == utils.ToStrings(req.GetPath()[j], false, false))
+//@ func (*Datastore).handleGetDataUpdatesSTRING
+//@   trusted reader loop over the cache channel, not under contract; only its precondition is used
+//@   requires requestedPaths(req, paths)
+//@ func (*Datastore).handleGetDataUpdatesPROTO
+//@   trusted reader loop over the cache channel, not under contract; only its precondition is used
+//@   requires requestedPaths(req, paths)
+//@ func (*Datastore).handleGetDataUpdatesJSON
+//@   trusted reader loop over the cache channel, not under contract; only its precondition is used
+//@   requires requestedPaths(req, paths)
+
 //@ pred knownEncoding(e) = e == sdcpb.Encoding_STRING || e == sdcpb.Encoding_JSON || e == sdcpb.Encoding_JSON_IETF || e == sdcpb.Encoding_PROTO
 //@ func (*Datastore).Get
 //@   props C14
@@ -177,6 +190,7 @@ package datastore
 //@   ensures json_reader: called(handleGetDataUpdatesJSON) ==> (enc == sdcpb.Encoding_JSON || enc == sdcpb.Encoding_JSON_IETF) && !called(handleGetDataUpdatesSTRING) && !called(handleGetDataUpdatesPROTO)
 //@   ensures json_flavour_first_site: called(handleGetDataUpdatesJSON, 0) ==> callarg(handleGetDataUpdatesJSON, 0, 6) == (enc == sdcpb.Encoding_JSON_IETF)
 //@   ensures json_flavour_second_site: called(handleGetDataUpdatesJSON, 1) ==> callarg(handleGetDataUpdatesJSON, 1, 6) == (enc == sdcpb.Encoding_JSON_IETF)
+//@   loop 1 invariant every_requested_path_is_read [C14]: len(paths) == $n && forall(j, 0, $n, paths[j] == utils.ToStrings(req.GetPath()[j], false, false))
 //@   ensures reader_error_is_returned: called(handleGetDataUpdatesSTRING) ==> r0 == callres(handleGetDataUpdatesSTRING)
 //@   ensures a_valid_request_is_read: knownEncoding(enc) && !intendedState && npaths == 0 ==>
 //@            called(handleGetDataUpdatesSTRING) || called(handleGetDataUpdatesJSON) || called(handleGetDataUpdatesPROTO)
